@@ -289,7 +289,7 @@ func (x *Exec) callMayWriteHeap(call *ast.CallExpr) bool {
 		}
 		return false
 	case *types.Func:
-		if o.Pkg() != nil && pureExternalPkgs[o.Pkg().Path()] {
+		if extCallPure(o) {
 			return false
 		}
 		if isSpecHelper(o) || libPure[o.FullName()] {
@@ -878,6 +878,9 @@ func (x *Exec) callWriteNames(call *ast.CallExpr, add func(string)) bool {
 	case *types.Func:
 		fi := x.eng.funcs[o.Origin()]
 		if fi == nil {
+			if o.Pkg() != nil && pureExternalPkgs[o.Pkg().Path()] && !extCallPure(o) {
+				return x.callbackWriteNames(call, add)
+			}
 			return false
 		}
 		ct := x.eng.contracts[fi.Obj]
